@@ -131,6 +131,9 @@ package service
 //@ func NewShadowsocksStreamAuthenticator$1
 //@   props C01 C06 C07 C08 C18
 //@   requires clientConn != nil && ciphers != nil && metrics != nil && l != nil
+//@   trace[C07,checks-the-captured-cache] each service.(*ReplayCache).Add satisfies $arg0 == replayCache
+//@   trace[C07,replay-is-refused] each service.(*ReplayCache).Add satisfies $res0 == false ==> result.2 != nil && result.1 == nil
+//@   trace[C07,one-check-per-handshake] atmost 1 service.(*ReplayCache).Add
 //@   ensures result.2 == nil ==> result.1 != nil
 //@   ensures result.2 != nil ==> result.1 == nil
 
@@ -531,8 +534,19 @@ package service
 //@ func Option
 //@   abstract
 //@   params s
+//@ func WithReplayCache
+//@   props C07 C18
+//@   ensures result != nil
+// the option stores exactly the cache it was given
+//@ func WithReplayCache$1
+//@   props C07 C18
+//@   requires s != nil
+//@   ensures[C07,option-installs-cache] s.replayCache == replayCache
 //@ func NewShadowsocksService
-//@   props C09 C18
+//@   props C07 C09 C18
+//@   trace[C07,authenticator-gets-service-cache] each service.NewShadowsocksStreamAuthenticator satisfies $arg1 == as(result.0, "*service.ssService").replayCache
+//@   trace[C09,handlers-use-service-keys] each service.NewShadowsocksStreamAuthenticator satisfies $arg0 == as(result.0, "*service.ssService").ciphers
+//@   trace[C09,packet-handler-uses-service-keys] each service.NewPacketHandler satisfies $arg1 == as(result.0, "*service.ssService").ciphers
 //@   requires forall i int :: 0 <= i && i < len(opts) ==> opts[i] != nil
 //@   ensures result.0 != nil && result.1 == nil
 //@ func NewCipherList
